@@ -179,6 +179,14 @@ def resolve_vector(spec, local, self_seq, nodes):
         # one entry whose node name is internally inconsistent (last component runs past the Name element but stays inside the entry)
         # among well-formed entries that would raise the vector: the vector is not decodable, hence not an accepted vector
         bad = rc.enc_tlv(0xca, b'\x07\x04\x08\x05ab' + rc.enc_tlv(0xcc, b'\x05'))
+        v = int(spec['pick'][1] * 4)
+        nm_ = rc.enc_name([C(b'n'), C(b'odd')])
+        if v == 1:
+            bad = rc.enc_tlv(0xca, rc.enc_tlv(0xcc, b'\x09') + nm_)                                  # the (critical) node name after the sequence number
+        elif v == 2:
+            bad = rc.enc_tlv(0xca, nm_ + rc.enc_name([C(b'n'), C(b'twice')]) + rc.enc_tlv(0xcc, b'\x09'))   # a second node name
+        elif v == 3:
+            bad = rc.enc_tlv(0xca, nm_ + rc.enc_tlv(0xcd, b'x') + rc.enc_tlv(0xcc, b'\x09'))            # an unknown critical element inside the entry
         ents = [(known[0], cur(known[0]) + 4), ('raw', bad), (known[-1], cur(known[-1]) + 2)]
         if spec['pick'][0] < 0.5:
             ents = ents[1:] + ents[:1]
